@@ -1,13 +1,837 @@
 //! Thrift IDL parser verbs and streams (C15, C16).
+//!
+//! Verbs (answers are compared verbatim with `lean/Driver/Idl.lean`):
+//!   idl-parse <kind> <hex text>        real `Parser::parse` of that node kind on a 2 MiB thread
+//!                                      -> ok <remaining chars> <ast> | err | fail | panic
+//!   idl-rt <file-ast> <layout> <hex>   `File::parse`; oracle C15: result == the AST that was printed, rest empty
+//!                                      -> <parse answer> render=1 wf=1
+//!   idl-alnum <lo> <hi>                `char::is_alphanumeric` over a code-point range -> ok <count> <checksum>
+//!   idl-lower                          chars whose `to_lowercase()` is "e" -> ok 69,101
+//! Streams: C15 (random descriptor AST x random layout), C16 (mutations, truncations, ladders, random UTF-8),
+//! IDLUNICODE (prints lean/PilotaModel/Idl/UnicodeTable.lean).
+use std::fmt::Write as _;
 use std::io::Write;
+use std::sync::Arc;
+
+use pilota_thrift_parser as ptp;
+use ptp::parser::Parser as _;
+use ptp::{
+    Annotation, Annotations, Attribute, ConstValue, Constant, CppInclude, CppType, DoubleConstant, Enum, EnumValue,
+    Exception, Field, File, Function, Ident, Include, IntConstant, Item, Literal, Namespace, Path, Scope, Service,
+    Struct, StructLike, Ty, Type, Typedef, Union,
+};
 
 use crate::val::*;
 use crate::Oracle;
 
-pub fn exec(_verb: &str, _items: &[Sexp], _o: &mut Oracle) -> Option<String> {
-    None
+// ------------------------------------------------------------------------------------------------
+// canonical S-expressions of the descriptor AST (mirror of Driver/Idl.lean)
+
+fn hs(s: &str) -> String { hex(s.as_bytes()) }
+fn sx(parts: &[String]) -> String { format!("({})", parts.join(" ")) }
+
+fn path_s(p: &Path) -> String {
+    let mut v = vec!["path".to_string()];
+    v.extend(p.segments.iter().map(|i| hs(&i.0)));
+    sx(&v)
+}
+fn anns_s(a: &Annotations) -> String {
+    let mut v = vec!["anns".to_string()];
+    v.extend(a.0.iter().map(|x| sx(&[hs(&x.key), hs(&x.value.0)])));
+    sx(&v)
+}
+fn cpp_s(c: &Option<CppType>) -> String {
+    match c { None => "none".into(), Some(c) => sx(&["cpp".into(), hs(&c.0 .0)]) }
+}
+fn ty_s(t: &Ty) -> String {
+    match t {
+        Ty::String => "string".into(), Ty::Void => "void".into(), Ty::Byte => "byte".into(), Ty::Bool => "bool".into(),
+        Ty::Binary => "binary".into(), Ty::I8 => "i8".into(), Ty::I16 => "i16".into(), Ty::I32 => "i32".into(),
+        Ty::I64 => "i64".into(), Ty::Double => "double".into(), Ty::Uuid => "uuid".into(),
+        Ty::List { value, cpp_type } => sx(&["list".into(), type_s(value), cpp_s(cpp_type)]),
+        Ty::Set { value, cpp_type } => sx(&["set".into(), type_s(value), cpp_s(cpp_type)]),
+        Ty::Map { key, value, cpp_type } => sx(&["map".into(), type_s(key), type_s(value), cpp_s(cpp_type)]),
+        Ty::Path(p) => path_s(p),
+    }
+}
+fn type_s(t: &Type) -> String { sx(&["type".into(), ty_s(&t.0), anns_s(&t.1)]) }
+fn cv_s(c: &ConstValue) -> String {
+    match c {
+        ConstValue::Bool(b) => sx(&["bool".into(), if *b { "1".into() } else { "0".into() }]),
+        ConstValue::Path(p) => path_s(p),
+        ConstValue::String(l) => sx(&["str".into(), hs(&l.0)]),
+        ConstValue::Int(n) => sx(&["int".into(), n.0.to_string()]),
+        ConstValue::Double(d) => sx(&["dbl".into(), hs(&d.0)]),
+        ConstValue::List(xs) => { let mut v = vec!["list".to_string()]; v.extend(xs.iter().map(cv_s)); sx(&v) }
+        ConstValue::Map(kvs) => { let mut v = vec!["map".to_string()]; v.extend(kvs.iter().map(|(k, x)| sx(&[cv_s(k), cv_s(x)]))); sx(&v) }
+    }
+}
+fn attr_s(a: &Attribute) -> String {
+    match a { Attribute::Optional => "optional", Attribute::Required => "required", Attribute::Default => "default" }.into()
+}
+fn field_s(f: &Field) -> String {
+    sx(&["field".into(), f.id.to_string(), hs(&f.name.0), attr_s(&f.attribute), type_s(&f.ty),
+         match &f.default { None => "none".into(), Some(c) => cv_s(c) }, anns_s(&f.annotations)])
+}
+fn fields_s(tag: &str, fs: &[Field]) -> String { let mut v = vec![tag.to_string()]; v.extend(fs.iter().map(field_s)); sx(&v) }
+fn struct_like_s(kind: &str, s: &StructLike) -> String {
+    sx(&[kind.into(), hs(&s.name.0), fields_s("fields", &s.fields), anns_s(&s.annotations)])
+}
+fn enum_value_s(v: &EnumValue) -> String {
+    sx(&["ev".into(), hs(&v.name.0), match &v.value { None => "none".into(), Some(n) => n.0.to_string() }, anns_s(&v.annotations)])
+}
+fn fn_s(f: &Function) -> String {
+    sx(&["fn".into(), hs(&f.name.0), if f.oneway { "1".into() } else { "0".into() }, type_s(&f.result_type),
+         fields_s("args", &f.arguments), fields_s("throws", &f.throws), anns_s(&f.annotations)])
+}
+fn item_s(i: &Item) -> String {
+    match i {
+        Item::Include(x) => sx(&["include".into(), hs(&x.path.0)]),
+        Item::CppInclude(x) => sx(&["cppinclude".into(), hs(&x.0 .0)]),
+        Item::Namespace(n) => sx(&["namespace".into(), hs(&n.scope.0), path_s(&n.name),
+                                   match &n.annotations { None => "none".into(), Some(a) => anns_s(a) }]),
+        Item::Typedef(t) => sx(&["typedef".into(), type_s(&t.r#type), hs(&t.alias.0), anns_s(&t.annotations)]),
+        Item::Constant(c) => sx(&["const".into(), hs(&c.name.0), type_s(&c.r#type), cv_s(&c.value), anns_s(&c.annotations)]),
+        Item::Enum(e) => { let mut v = vec!["values".to_string()]; v.extend(e.values.iter().map(enum_value_s));
+                           sx(&["enum".into(), hs(&e.name.0), sx(&v), anns_s(&e.annotations)]) }
+        Item::Struct(s) => struct_like_s("struct", &s.0),
+        Item::Union(s) => struct_like_s("union", &s.0),
+        Item::Exception(s) => struct_like_s("exception", &s.0),
+        Item::Service(s) => { let mut v = vec!["fns".to_string()]; v.extend(s.functions.iter().map(fn_s));
+                              sx(&["service".into(), hs(&s.name.0), match &s.extends { None => "none".into(), Some(p) => path_s(p) },
+                                   sx(&v), anns_s(&s.annotations)]) }
+    }
+}
+fn file_s(f: &File) -> String {
+    let mut v = vec!["file".to_string(), match &f.package { None => "none".into(), Some(p) => path_s(p) }];
+    v.extend(f.items.iter().map(item_s));
+    sx(&v)
 }
 
-pub fn gen(_stream: &str, _tier: &str, _seed: u64, _out: &mut dyn Write) -> bool {
-    false
+fn sexp_str(x: &Sexp, out: &mut String) {
+    match x {
+        Sexp::Atom(a) => out.push_str(a),
+        Sexp::List(l) => { out.push('('); for (i, y) in l.iter().enumerate() { if i > 0 { out.push(' '); } sexp_str(y, out); } out.push(')'); }
+    }
+}
+
+// ------------------------------------------------------------------------------------------------
+// running the real parser
+
+/// the property's stack clause: every parse runs on a fresh thread with a 2 MiB stack
+fn on_2mib<T: Send + 'static>(f: impl FnOnce() -> T + Send + 'static) -> Result<T, String> {
+    let h = std::thread::Builder::new().stack_size(2 << 20).spawn(move || std::panic::catch_unwind(std::panic::AssertUnwindSafe(f))).expect("spawn");
+    match h.join() {
+        Ok(Ok(v)) => Ok(v),
+        Ok(Err(p)) | Err(p) => Err(p.downcast_ref::<String>().cloned().or_else(|| p.downcast_ref::<&str>().map(|s| s.to_string())).unwrap_or_default()),
+    }
+}
+
+fn res_s<T>(r: nom_result::R<T>, show: impl Fn(&T) -> String) -> String {
+    match r {
+        nom_result::R::Ok(rest, v) => format!("ok {} {}", rest, show(&v)),
+        nom_result::R::Err(k) => k.to_string(),
+    }
+}
+
+mod nom_result {
+    /// `IResult` reduced to what is compared: remaining CHAR count + value, or the error class.
+    /// (`rt` does not depend on `nom`; the variant is read off the derived `Debug` of `nom::Err`.)
+    pub enum R<T> { Ok(usize, T), Err(&'static str) }
+    pub fn of<T, E: std::fmt::Debug>(r: Result<(&str, T), E>) -> R<T> {
+        match r {
+            Ok((rest, v)) => R::Ok(rest.chars().count(), v),
+            Err(e) => {
+                let d = format!("{:?}", e);
+                if d.starts_with("Error(") { R::Err("err") } else if d.starts_with("Failure(") { R::Err("fail") } else { R::Err("incomplete") }
+            }
+        }
+    }
+}
+
+fn parse_kind(kind: &str, text: &str) -> Option<String> {
+    use nom_result::of;
+    Some(match kind {
+        "file" => res_s(of(File::parse(text)), file_s),
+        "item" => res_s(of(Item::parse(text)), item_s),
+        "type" => res_s(of(Type::parse(text)), type_s),
+        "cv" => res_s(of(ConstValue::parse(text)), cv_s),
+        "field" => res_s(of(Field::parse(text)), field_s),
+        "fn" => res_s(of(Function::parse(text)), fn_s),
+        "ident" => res_s(of(Ident::parse(text)), |i| sx(&["id".into(), hs(&i.0)])),
+        "path" => res_s(of(Path::parse(text)), path_s),
+        "lit" => res_s(of(Literal::parse(text)), |l| sx(&["lit".into(), hs(&l.0)])),
+        "anns" => res_s(of(Annotations::parse(text)), anns_s),
+        "int" => res_s(of(IntConstant::parse(text)), |n| sx(&["int".into(), n.0.to_string()])),
+        "dbl" => res_s(of(DoubleConstant::parse(text)), |d| sx(&["dbl".into(), hs(&d.0)])),
+        _ => return None,
+    })
+}
+
+const KINDS: [&str; 12] = ["file", "item", "type", "cv", "field", "fn", "ident", "path", "lit", "anns", "int", "dbl"];
+
+fn run_parse(kind: &str, text: String, o: &mut Oracle) -> Option<String> {
+    if !KINDS.contains(&kind) { return None; }
+    let k = kind.to_string();
+    match on_2mib(move || parse_kind(&k, &text)) {
+        Ok(a) => a,
+        Err(msg) => { o.fail("C16,PANIC", format!("IDL parser panicked ({}): {}", kind, msg)); Some("panic".into()) }
+    }
+}
+
+pub fn exec(verb: &str, items: &[Sexp], o: &mut Oracle) -> Option<String> {
+    match verb {
+        "idl-parse" => {
+            let kind = items.get(1)?.atom()?;
+            let text = String::from_utf8(unhex(items.get(2)?.atom()?)?).ok()?;
+            run_parse(kind, text, o)
+        }
+        "idl-rt" => {
+            let mut expected = String::new();
+            sexp_str(items.get(1)?, &mut expected);
+            let text = String::from_utf8(unhex(items.get(3)?.atom()?)?).ok()?;
+            let ans = run_parse("file", text, o)?;
+            let want = format!("ok 0 {}", expected);
+            if ans != want {
+                let at = ans.bytes().zip(want.bytes()).position(|(a, b)| a != b).unwrap_or(ans.len().min(want.len()));
+                o.fail("C15", format!("File::parse of the rendered document is not the printed AST: got `{}` (first difference at answer byte {})",
+                                      ans.chars().take(120).collect::<String>(), at));
+            }
+            Some(format!("{} render=1 wf=1", ans))
+        }
+        "idl-alnum" => {
+            let lo: u32 = items.get(1)?.atom()?.parse().ok()?;
+            let hi: u32 = items.get(2)?.atom()?.parse().ok()?;
+            let (mut cnt, mut sum) = (0u64, 0u64);
+            for cp in lo..hi {
+                if let Some(c) = char::from_u32(cp) { if c.is_alphanumeric() { cnt += 1; sum = (sum * 31 + cp as u64) % 1_000_000_007; } }
+            }
+            Some(format!("ok {} {}", cnt, sum))
+        }
+        "idl-lower" => {
+            let mut v = vec![];
+            for cp in 0u32..0x110000 { if let Some(c) = char::from_u32(cp) { if c.to_lowercase().eq("e".chars()) { v.push(cp.to_string()); } } }
+            Some(format!("ok {}", v.join(",")))
+        }
+        _ => None,
+    }
+}
+
+// ------------------------------------------------------------------------------------------------
+// layout + printer (mirror of lean/PilotaModel/Idl/Printer.lean)
+
+#[derive(Clone)]
+enum Piece { Ws(String), Line(String), Hash(String), Block(String) }
+#[derive(Clone)]
+struct Choice { pieces: Vec<Piece>, sep: u64, flag: bool }
+
+fn san_block(cs: &str) -> String {
+    let mut out = String::new();
+    let mut prev_star = false;
+    for c in cs.chars() {
+        if prev_star && c == '/' { continue; }
+        out.push(c);
+        prev_star = c == '*';
+    }
+    out
+}
+fn piece_text(p: &Piece) -> String {
+    match p {
+        Piece::Ws(s) => s.chars().filter(|c| matches!(c, ' ' | '\t' | '\r' | '\n')).collect(),
+        Piece::Line(s) => format!("//{}\n", s.chars().filter(|c| *c != '\n').collect::<String>()),
+        Piece::Hash(s) => format!("#{}\n", s.chars().filter(|c| *c != '\n').collect::<String>()),
+        Piece::Block(s) => format!("/*{}*/", san_block(s)),
+    }
+}
+fn blank_text(ps: &[Piece]) -> String { ps.iter().map(piece_text).collect() }
+fn sep_char(n: u64) -> &'static str { match n % 3 { 1 => ",", 2 => ";", _ => "" } }
+
+fn lit_ok(q: char, t: &str) -> bool {
+    let cs: Vec<char> = t.chars().collect();
+    let mut i = 0;
+    while i < cs.len() {
+        if cs[i] == '\\' {
+            if i + 1 >= cs.len() || !matches!(cs[i + 1], '\'' | '"' | 'n' | '\\') { return false; }
+            i += 2;
+        } else { if cs[i] == q { return false; } i += 1; }
+    }
+    true
+}
+fn quote_for(prefer_double: bool, t: &str) -> char {
+    if prefer_double { if lit_ok('"', t) { '"' } else { '\'' } } else if lit_ok('\'', t) { '\'' } else { '"' }
+}
+
+const WS: [&str; 8] = [" ", "\n", "\t", "\r\n", "  ", " \n\t ", "\n\n", "\r"];
+const CMT: [&str; 14] = ["", " note", "/*", "*/", " a /* b */ c", "#", "//", " \"quoted' text", "é ü 中", " struct X {", "*", " 1: i32 x,", "\\", "\t"];
+const BLK: [&str; 14] = ["", " note ", "*", "**", "/", "//", "/*", "* /", "\n * doc\n ", "é中", " \"q' ", "# x\n", "*/ tail", "/ * /"];
+
+/// a layout source: replays nothing, generates choices on demand and records them
+struct Lay { rng: Rng, rec: Vec<Choice>, plain: bool }
+impl Lay {
+    fn pop(&mut self) -> Choice {
+        let r = &mut self.rng;
+        let pieces = if self.plain { if r.chance(1, 2) { vec![] } else { vec![Piece::Ws(" ".into())] } } else {
+            match r.below(10) {
+                0..=3 => vec![],
+                4..=6 => vec![Piece::Ws(r.pick(&WS).to_string())],
+                _ => (0..1 + r.below(3)).map(|_| match r.below(5) {
+                    0 | 1 => Piece::Ws(r.pick(&WS).to_string()),
+                    2 => Piece::Line(r.pick(&CMT).to_string()),
+                    3 => Piece::Hash(r.pick(&CMT).to_string()),
+                    _ => Piece::Block(r.pick(&BLK).to_string()),
+                }).collect(),
+            }
+        };
+        let c = Choice { pieces, sep: r.below(6), flag: r.chance(1, 2) };
+        self.rec.push(c.clone());
+        c
+    }
+    fn sexp(&self) -> String {
+        let mut s = String::from("(lay");
+        for c in &self.rec {
+            let _ = write!(s, " (c {} {}", c.sep, c.flag as u8);
+            for p in &c.pieces {
+                let (k, t) = match p { Piece::Ws(t) => ("w", t), Piece::Line(t) => ("l", t), Piece::Hash(t) => ("h", t), Piece::Block(t) => ("b", t) };
+                let _ = write!(s, " ({} {})", k, hs(t));
+            }
+            s.push(')');
+        }
+        s.push(')');
+        s
+    }
+}
+
+struct Pr { out: String, lay: Lay }
+impl Pr {
+    fn lit(&mut self, s: &str) { self.out.push_str(s); }
+    fn b0(&mut self) { let c = self.lay.pop(); self.out.push_str(&blank_text(&c.pieces)); }
+    fn b1(&mut self) { let c = self.lay.pop(); let t = blank_text(&c.pieces); if t.is_empty() { self.out.push(' '); } else { self.out.push_str(&t); } }
+    fn gap(&mut self, needed: bool) { if needed { self.b1() } else { self.b0() } }
+    fn tail(&mut self, ends_open: bool, last: bool) {
+        let c = self.lay.pop();
+        let s = sep_char(c.sep);
+        if s.is_empty() { self.gap(ends_open && !last); } else { self.b0(); self.lit(s); self.b0(); }
+    }
+    fn tail_adj(&mut self, ends_open: bool, last: bool) {
+        let c = self.lay.pop();
+        let s = sep_char(c.sep);
+        if s.is_empty() { self.gap(ends_open && !last); } else { self.lit(s); self.b0(); }
+    }
+    fn def_tail(&mut self, a: &Annotations, ends_open: bool, last: bool) {
+        if a.0.is_empty() { self.tail(ends_open, last) } else { self.tail_adj(false, last) }
+    }
+    fn literal(&mut self, t: &str) {
+        let c = self.lay.pop();
+        let q = quote_for(c.flag, t);
+        self.out.push(q); self.out.push_str(t); self.out.push(q);
+    }
+    fn path(&mut self, p: &Path) {
+        for (i, s) in p.segments.iter().enumerate() {
+            if i > 0 { self.b0(); self.lit("."); self.b0(); }
+            self.lit(&s.0);
+        }
+    }
+    fn anns(&mut self, a: &Annotations) {
+        if a.0.is_empty() { return; }
+        self.lit("("); self.b0();
+        let n = a.0.len();
+        for (i, x) in a.0.iter().enumerate() {
+            self.lit(&x.key); self.b0(); self.lit("="); self.b0(); self.literal(&x.value.0); self.tail(false, i + 1 == n);
+        }
+        self.lit(")");
+    }
+    fn opt_anns(&mut self, a: &Annotations) { if !a.0.is_empty() { self.b0(); self.anns(a); } }
+    fn cpp_opt(&mut self, c: &Option<CppType>) {
+        if let Some(c) = c { self.b1(); self.lit("cpp_type"); self.b1(); self.literal(&c.0 .0); }
+    }
+    fn ty(&mut self, t: &Ty) {
+        match t {
+            Ty::String => self.lit("string"), Ty::Void => self.lit("void"), Ty::Byte => self.lit("byte"), Ty::Bool => self.lit("bool"),
+            Ty::Binary => self.lit("binary"), Ty::I8 => self.lit("i8"), Ty::I16 => self.lit("i16"), Ty::I32 => self.lit("i32"),
+            Ty::I64 => self.lit("i64"), Ty::Double => self.lit("double"), Ty::Uuid => self.lit("uuid"),
+            Ty::List { value, cpp_type } => { self.lit("list"); self.b0(); self.lit("<"); self.b0(); self.type_(value); self.b0(); self.lit(">"); self.cpp_opt(cpp_type); }
+            Ty::Set { value, cpp_type } => { self.lit("set"); self.cpp_opt(cpp_type); self.b0(); self.lit("<"); self.b0(); self.type_(value); self.b0(); self.lit(">"); }
+            Ty::Map { key, value, cpp_type } => {
+                self.lit("map"); self.cpp_opt(cpp_type); self.b0(); self.lit("<"); self.b0(); self.type_(key); self.b0();
+                let c = self.lay.pop(); self.lit(if c.sep % 2 == 0 { "," } else { ";" });
+                self.b0(); self.type_(value); self.b0(); self.lit(">");
+            }
+            Ty::Path(p) => self.path(p),
+        }
+    }
+    fn type_(&mut self, t: &Type) { self.ty(&t.0); self.opt_anns(&t.1); }
+    fn cv(&mut self, c: &ConstValue) {
+        match c {
+            ConstValue::Bool(b) => self.lit(if *b { "true" } else { "false" }),
+            ConstValue::Path(p) => self.path(p),
+            ConstValue::String(l) => self.literal(&l.0),
+            ConstValue::Int(n) => self.lit(&n.0.to_string()),
+            ConstValue::Double(d) => self.lit(&d.0),
+            ConstValue::List(xs) => {
+                self.lit("["); self.b0();
+                for (i, x) in xs.iter().enumerate() { self.cv(x); self.tail(cv_open(x), i + 1 == xs.len()); }
+                self.lit("]");
+            }
+            ConstValue::Map(kvs) => {
+                self.lit("{"); self.b0();
+                for (i, (k, v)) in kvs.iter().enumerate() {
+                    self.cv(k); self.b0(); self.lit(":"); self.b0(); self.cv(v); self.tail(cv_open(v), i + 1 == kvs.len());
+                }
+                self.lit("}");
+            }
+        }
+    }
+    fn attr(&mut self, arg_mode: bool, a: &Attribute) {
+        match a {
+            Attribute::Optional => { self.lit("optional"); self.b1(); }
+            Attribute::Required => {
+                if arg_mode { let c = self.lay.pop(); if !c.flag { self.lit("required"); self.b1(); } } else { self.lit("required"); self.b1(); }
+            }
+            Attribute::Default => {}
+        }
+    }
+    fn field(&mut self, arg_mode: bool, f: &Field, last: bool) {
+        self.lit(&f.id.to_string()); self.b0(); self.lit(":"); self.b0(); self.attr(arg_mode, &f.attribute);
+        self.type_(&f.ty); self.gap(type_open(&f.ty)); self.lit(&f.name.0);
+        if let Some(v) = &f.default { self.b0(); self.lit("="); self.b0(); self.cv(v); }
+        self.opt_anns(&f.annotations);
+        self.tail(field_open(f), last);
+    }
+    fn fields(&mut self, arg_mode: bool, fs: &[Field]) { for (i, f) in fs.iter().enumerate() { self.field(arg_mode, f, i + 1 == fs.len()); } }
+    fn struct_like(&mut self, s: &StructLike, last: bool) {
+        self.lit(&s.name.0); self.b0(); self.lit("{"); self.b0(); self.fields(false, &s.fields); self.lit("}");
+        self.opt_anns(&s.annotations); self.def_tail(&s.annotations, false, last);
+    }
+    fn enum_value(&mut self, v: &EnumValue, last: bool) {
+        self.lit(&v.name.0);
+        if let Some(n) = &v.value { self.b0(); self.lit("="); self.b0(); self.lit(&n.0.to_string()); }
+        self.opt_anns(&v.annotations); self.def_tail(&v.annotations, true, last);
+    }
+    fn enum_(&mut self, e: &Enum) {
+        self.lit("enum"); self.b1(); self.lit(&e.name.0); self.b0(); self.lit("{"); self.b0();
+        for (i, v) in e.values.iter().enumerate() { self.enum_value(v, i + 1 == e.values.len()); }
+        self.lit("}"); self.opt_anns(&e.annotations);
+    }
+    fn function(&mut self, f: &Function, last: bool) {
+        if f.oneway { self.lit("oneway"); self.b1(); }
+        self.type_(&f.result_type); self.b1(); self.lit(&f.name.0); self.b0(); self.lit("("); self.b0();
+        self.fields(true, &f.arguments); self.lit(")");
+        if !f.throws.is_empty() { self.b0(); self.lit("throws"); self.b0(); self.lit("("); self.b0(); self.fields(false, &f.throws); self.lit(")"); }
+        self.opt_anns(&f.annotations); self.def_tail(&f.annotations, false, last);
+    }
+    fn service(&mut self, s: &Service, last: bool) {
+        self.lit("service"); self.b1(); self.lit(&s.name.0);
+        if let Some(p) = &s.extends { self.b1(); self.lit("extends"); self.b1(); self.path(p); }
+        self.b0(); self.lit("{"); self.b0();
+        for (i, f) in s.functions.iter().enumerate() { self.function(f, i + 1 == s.functions.len()); }
+        self.lit("}"); self.opt_anns(&s.annotations); self.def_tail(&s.annotations, false, last);
+    }
+    fn item(&mut self, it: &Item, last: bool) {
+        match it {
+            Item::Include(x) => { self.lit("include"); self.b1(); self.literal(&x.path.0); self.tail_adj(false, last); }
+            Item::CppInclude(x) => { self.lit("cpp_include"); self.b1(); self.literal(&x.0 .0); self.tail_adj(false, last); }
+            Item::Namespace(n) => {
+                self.lit("namespace"); self.b1(); self.lit(&n.scope.0); self.b1(); self.path(&n.name);
+                if let Some(a) = &n.annotations { self.opt_anns(a); }
+                self.tail(n.annotations.is_none(), last);
+            }
+            Item::Typedef(t) => {
+                self.lit("typedef"); self.b1(); self.type_(&t.r#type); self.b1(); self.lit(&t.alias.0);
+                self.opt_anns(&t.annotations); self.def_tail(&t.annotations, true, last);
+            }
+            Item::Constant(c) => {
+                self.lit("const"); self.b1(); self.type_(&c.r#type); self.b1(); self.lit(&c.name.0); self.b0(); self.lit("="); self.b0(); self.cv(&c.value);
+                self.opt_anns(&c.annotations); self.def_tail(&c.annotations, cv_open(&c.value), last);
+            }
+            Item::Enum(e) => { self.enum_(e); self.b0(); }
+            Item::Struct(s) => { self.lit("struct"); self.b1(); self.struct_like(&s.0, last); }
+            Item::Union(s) => { self.lit("union"); self.b1(); self.struct_like(&s.0, last); }
+            Item::Exception(s) => { self.lit("exception"); self.b1(); self.struct_like(&s.0, last); }
+            Item::Service(s) => self.service(s, last),
+        }
+    }
+    fn file(&mut self, f: &File) {
+        self.b0();
+        for (i, it) in f.items.iter().enumerate() { self.item(it, i + 1 == f.items.len()); }
+    }
+}
+fn ty_open(t: &Ty) -> bool { !matches!(t, Ty::List { .. } | Ty::Set { .. } | Ty::Map { .. }) }
+fn type_open(t: &Type) -> bool { t.1 .0.is_empty() && ty_open(&t.0) }
+fn cv_open(c: &ConstValue) -> bool { !matches!(c, ConstValue::String(_) | ConstValue::List(_) | ConstValue::Map(_)) }
+fn field_open(f: &Field) -> bool { f.annotations.0.is_empty() && f.default.as_ref().map(cv_open).unwrap_or(true) }
+
+// ------------------------------------------------------------------------------------------------
+// random descriptor ASTs (G_thrift restricted to what the parser's AST can hold)
+
+/// identifiers that are safe in every position (none equals a word the grammar reserves)
+const IDS: [&str; 44] = [
+    "a", "x", "Foo", "bar_baz", "_", "_1", "A_b9", "__files", "ID", "req", "Base", "trueValue", "falsey", "true_", "False",
+    "optionalFoo", "required_x", "requiredness", "i32x", "i8_", "i16s", "i64x", "list_of", "lists", "setting", "mapper",
+    "voidness", "onewayTicket", "oneway_", "stringify", "boolean", "bytes", "binary2", "doubled", "uuid4", "throwsX",
+    "extendsY", "cpp_typex", "cpp_type_", "consts", "typedefs", "includes", "structure", "e5",
+];
+/// additionally allowed where only a NAME is expected (field, enum value, function, definition names)
+const NAMES: [&str; 14] = ["string", "list", "true", "optional", "include", "service", "void", "oneway", "throws", "extends", "map", "i32", "required", "false"];
+const SCOPES: [&str; 18] = ["*", "c_glib", "cpp", "delphi", "haxe", "go", "java", "js", "lua", "netstd", "perl", "php", "py.twisted", "py", "rb", "st", "xsd", "rs"];
+const LITS: [&str; 22] = ["", "a", "hello world", "base.thrift", "json:\\\"Ids\\\"", "it\\'s", "a\\nb", "back\\\\slash", "say \"hi\"", "it's",
+    "line\nbreak", "é中文", "// not a comment", "/* nor this */", "# hash", "{[(<,;:=>)]}", "true", "1.5e3", " ", "\t", "\\\\", "\\n\\n"];
+const DBLS: [&str; 20] = ["1.5", "0.0", "-1.5", "+1.5", "-+2.0", "1.", ".5", "-.5", "1e5", "1E5", "1e-5", "1.5e10", "1.5E-3", ".5e-0", "12.e3", "1e0x1F",
+    "3.14159", "1e-2", "0.e0", "00.00"];
+
+struct G { r: Rng }
+impl G {
+    fn id(&mut self) -> Ident {
+        let r = &mut self.r;
+        if r.chance(5, 6) { Ident(Arc::from(*r.pick(&IDS))) } else {
+            let n = 1 + r.below(8) as usize;
+            let mut s = String::new();
+            let first = b"abcdefghijklmnopqrstuvwxyzABCDEFGHIJKLMNOPQRSTUVWXYZ_";
+            let rest = b"abcdefghijklmnopqrstuvwxyzABCDEFGHIJKLMNOPQRSTUVWXYZ_0123456789";
+            s.push(*r.pick(first) as char);
+            for _ in 1..n { s.push(*r.pick(rest) as char); }
+            // a random word may hit a reserved one; the pools above never do
+            if RESERVED.contains(&s.as_str()) { s.push('_'); }
+            Ident(Arc::from(s.as_str()))
+        }
+    }
+    fn name(&mut self) -> Ident { if self.r.chance(1, 8) { Ident(Arc::from(*self.r.pick(&NAMES))) } else { self.id() } }
+    fn path(&mut self) -> Path {
+        let n = match self.r.below(6) { 0 => 2, 1 => 3, _ => 1 };
+        Path { segments: (0..n).map(|_| self.id()).collect() }
+    }
+    fn lit(&mut self) -> Literal {
+        let r = &mut self.r;
+        if r.chance(4, 5) { Literal(r.pick(&LITS).to_string()) } else {
+            let n = r.below(12);
+            let mut s = String::new();
+            for _ in 0..n {
+                match r.below(12) {
+                    0 => s.push_str("\\\""), 1 => s.push_str("\\'"), 2 => s.push_str("\\n"), 3 => s.push_str("\\\\"),
+                    4 => s.push('é'), 5 => s.push(' '), 6 => s.push('\n'),
+                    _ => s.push((b'!' + r.below(90) as u8) as char),
+                }
+            }
+            // keep it representable: no lone backslash, not both bare quotes
+            let s: String = { let mut t = String::new(); let cs: Vec<char> = s.chars().collect(); let mut i = 0;
+                while i < cs.len() { if cs[i] == '\\' { if i + 1 < cs.len() && matches!(cs[i + 1], '\'' | '"' | 'n' | '\\') { t.push(cs[i]); t.push(cs[i + 1]); i += 2; } else { i += 1; } } else { t.push(cs[i]); i += 1; } } t };
+            let s = if !lit_ok('"', &s) && !lit_ok('\'', &s) { "both \\\" \\' escaped".to_string() } else { s };
+            Literal(s)
+        }
+    }
+    fn anns(&mut self) -> Annotations {
+        let n = match self.r.below(10) { 0 => 1, 1 => 2, 2 => 3, _ => 0 };
+        Annotations((0..n).map(|_| {
+            let key = match self.r.below(5) { 0 => "pilota.name".to_string(), 1 => "go.tag".into(), 2 => "a".into(), 3 => "_x.y.z".into(), _ => format!("{}.k1", self.id().0) };
+            Annotation { key, value: self.lit() }
+        }).collect())
+    }
+    fn cpp(&mut self) -> Option<CppType> { if self.r.chance(1, 8) { Some(CppType(self.lit())) } else { None } }
+    fn ty(&mut self, depth: usize) -> Ty {
+        let r = &mut self.r;
+        if depth == 0 || r.chance(3, 5) {
+            match r.below(14) {
+                0 => Ty::String, 1 => Ty::Void, 2 => Ty::Byte, 3 => Ty::Bool, 4 => Ty::Binary, 5 => Ty::I8, 6 => Ty::I16, 7 => Ty::I32,
+                8 => Ty::I64, 9 => Ty::Double, 10 => Ty::Uuid, _ => Ty::Path(self.path()),
+            }
+        } else {
+            match r.below(3) {
+                0 => Ty::List { value: Arc::new(self.type_(depth - 1)), cpp_type: self.cpp() },
+                1 => Ty::Set { value: Arc::new(self.type_(depth - 1)), cpp_type: self.cpp() },
+                _ => Ty::Map { key: Arc::new(self.type_(depth - 1)), value: Arc::new(self.type_(depth - 1)), cpp_type: self.cpp() },
+            }
+        }
+    }
+    fn type_(&mut self, depth: usize) -> Type { let t = self.ty(depth); Type(t, self.anns()) }
+    fn int(&mut self) -> i64 {
+        let r = &mut self.r;
+        match r.below(6) {
+            0 => *r.pick(&[0, 1, -1, i64::MAX, -i64::MAX, i32::MAX as i64, i32::MIN as i64, 255, -128, 10, 100]),
+            1 => r.below(1000) as i64 - 500,
+            2 => { let v = r.next() as i64; if v == i64::MIN { 0 } else { v } }
+            _ => r.below(20) as i64,
+        }
+    }
+    fn cv(&mut self, depth: usize) -> ConstValue {
+        let k = if depth == 0 { self.r.below(5) } else { self.r.below(8) };
+        match k {
+            0 => ConstValue::Bool(self.r.chance(1, 2)),
+            1 => ConstValue::Path(self.path()),
+            2 => ConstValue::String(self.lit()),
+            3 => ConstValue::Int(IntConstant(self.int())),
+            4 => ConstValue::Double(DoubleConstant(Arc::from(*self.r.pick(&DBLS)))),
+            5 | 6 => { let n = self.r.below(4); ConstValue::List((0..n).map(|_| self.cv(depth - 1)).collect()) }
+            _ => { let n = self.r.below(3); ConstValue::Map((0..n).map(|_| (self.cv(depth - 1), self.cv(depth - 1))).collect()) }
+        }
+    }
+    fn field(&mut self, arg: bool) -> Field {
+        let r = &mut self.r;
+        let id = match r.below(8) { 0 => *r.pick(&[0, 1, 255, 32767, 65536, i32::MAX]), _ => 1 + r.below(40) as i32 };
+        let attribute = match r.below(3) { 0 => Attribute::Optional, 1 => Attribute::Required, _ => if arg { Attribute::Required } else { Attribute::Default } };
+        let ty = self.type_(2);
+        let name = self.name();
+        // after `list<…>` without annotations the parser looks for `cpp_type`: that one name is reserved there
+        let name = if &*name.0 == "cpp_type" { Ident(Arc::from("cpp_type_")) } else { name };
+        let default = if self.r.chance(1, 3) { Some(self.cv(2)) } else { None };
+        Field { id, name, attribute, ty, default, annotations: self.anns() }
+    }
+    fn fields(&mut self, arg: bool, min: u64) -> Vec<Field> { let n = min + self.r.below(4); (0..n).map(|_| self.field(arg)).collect() }
+    fn struct_like(&mut self) -> StructLike { StructLike { name: self.name(), fields: self.fields(false, 0), annotations: self.anns() } }
+    fn function(&mut self) -> Function {
+        let oneway = self.r.chance(1, 4);
+        let result_type = self.type_(2);
+        Function { name: self.name(), oneway, result_type, arguments: self.fields(true, 0),
+                   throws: if self.r.chance(1, 3) { self.fields(false, 1) } else { vec![] }, annotations: self.anns() }
+    }
+    fn item(&mut self) -> Item {
+        match self.r.below(12) {
+            0 => Item::Include(Include { path: self.lit() }),
+            1 => Item::CppInclude(CppInclude(self.lit())),
+            2 => { let scope = Scope(self.r.pick(&SCOPES).to_string());
+                   let annotations = if self.r.chance(1, 4) { let mut a = self.anns(); if a.0.is_empty() { a.0.push(Annotation { key: "k".into(), value: self.lit() }); } Some(a) } else { None };
+                   Item::Namespace(Namespace { scope, name: self.path(), annotations }) }
+            3 => Item::Typedef(Typedef { r#type: self.type_(3), alias: self.name(), annotations: self.anns() }),
+            4 | 5 => Item::Constant(Constant { name: self.name(), r#type: self.type_(2), value: self.cv(3), annotations: self.anns() }),
+            6 => { let n = self.r.below(5);
+                   let values = (0..n).map(|_| EnumValue { name: self.name(), value: if self.r.chance(2, 3) { Some(IntConstant(self.int())) } else { None }, annotations: self.anns() }).collect();
+                   Item::Enum(Enum { name: self.name(), values, annotations: self.anns() }) }
+            7 | 8 => Item::Struct(Struct(self.struct_like())),
+            9 => if self.r.chance(1, 2) { Item::Union(Union(self.struct_like())) } else { Item::Exception(Exception(self.struct_like())) },
+            _ => { let n = self.r.below(4);
+                   Item::Service(Service { name: self.name(), extends: if self.r.chance(1, 3) { Some(self.path()) } else { None },
+                                           functions: (0..n).map(|_| self.function()).collect(), annotations: self.anns() }) }
+        }
+    }
+    fn file(&mut self, max_items: u64) -> File {
+        let n = 1 + self.r.below(max_items.max(1));
+        let items: Vec<Item> = (0..n).map(|_| self.item()).collect();
+        let package = items.iter().find_map(|i| if let Item::Namespace(n) = i { if n.scope.0 == "rs" { Some(n.name.clone()) } else { None } } else { None });
+        File { package, items, ..Default::default() }
+    }
+}
+const RESERVED: [&str; 24] = ["string", "void", "byte", "bool", "binary", "i8", "i16", "i32", "i64", "double", "uuid", "list", "set", "map",
+    "true", "false", "required", "optional", "oneway", "throws", "extends", "cpp_type", "const", "typedef"];
+
+fn render(f: &File, seed: u64, plain: bool) -> (String, String) {
+    let mut p = Pr { out: String::new(), lay: Lay { rng: Rng(seed), rec: vec![], plain } };
+    p.file(f);
+    (p.out, p.lay.sexp())
+}
+
+fn rt_line(f: &File, seed: u64, plain: bool) -> String {
+    let (text, lay) = render(f, seed, plain);
+    format!("idl-rt {} {} {}", file_s(f), lay, hs(&text))
+}
+
+fn one_item_file(it: Item) -> File {
+    let package = if let Item::Namespace(n) = &it { if n.scope.0 == "rs" { Some(n.name.clone()) } else { None } } else { None };
+    File { package, items: vec![it], ..Default::default() }
+}
+
+fn id(s: &str) -> Ident { Ident(Arc::from(s)) }
+fn p1(s: &str) -> Path { Path { segments: Arc::from(vec![id(s)]) } }
+fn t0(t: Ty) -> Type { Type(t, Annotations(vec![])) }
+fn no_anns() -> Annotations { Annotations(vec![]) }
+
+/// fixed boundary documents of C15: every keyword-prefixed identifier in every position where the keyword is tested
+fn c15_fixed(out: &mut dyn Write) {
+    let kws = ["true", "false", "optional", "required", "oneway", "string", "void", "byte", "bool", "binary", "i8", "i16", "i32", "i64",
+               "double", "uuid", "list", "set", "map", "throws", "extends", "cpp_type", "const", "typedef", "include", "namespace", "struct",
+               "enum", "union", "exception", "service"];
+    let mut seed = 1000;
+    for kw in kws {
+        for suffix in ["Value", "_", "1", "x"] {
+            let w = format!("{}{}", kw, suffix);
+            // as a type, as a constant value, as a field name, as a function result type
+            let f = Field { id: 1, name: id(&w), attribute: Attribute::Default, ty: t0(Ty::Path(p1(&w))), default: Some(ConstValue::Path(p1(&w))), annotations: no_anns() };
+            let st = Item::Struct(Struct(StructLike { name: id(&w), fields: vec![f.clone()], annotations: no_anns() }));
+            let func = || Function { name: id(&w), oneway: false, result_type: t0(Ty::Path(p1(&w))), arguments: vec![Field { attribute: Attribute::Required, ..f.clone() }], throws: vec![], annotations: no_anns() };
+            let sv = Item::Service(Service { name: id(&w), extends: Some(p1(&w)), functions: vec![func(), func()], annotations: no_anns() });
+            let cn = Item::Constant(Constant { name: id(&w), r#type: t0(Ty::List { value: Arc::new(t0(Ty::Path(p1(&w)))), cpp_type: None }),
+                                               value: ConstValue::List(vec![ConstValue::Path(p1(&w)), ConstValue::Path(p1(&w))]), annotations: no_anns() });
+            for it in [st, sv, cn] {
+                let f = one_item_file(it);
+                for plain in [true, false] { seed += 1; let _ = writeln!(out, "{}", rt_line(&f, seed, plain)); }
+            }
+        }
+    }
+    // empty document: with the empty layout, and with blanks and comments only (DI1, fixed by 00dcdf5)
+    for sd in 1..6 { let _ = writeln!(out, "{}", rt_line(&File::default(), sd, sd < 3)); }
+    let mut g = G { r: Rng(77) };
+    for _ in 0..40 { let f = one_item_file(g.item()); seed += 1; let _ = writeln!(out, "{}", rt_line(&f, seed, true)); }
+}
+
+// ------------------------------------------------------------------------------------------------
+// C16: hostile text
+
+fn parse_line(kind: &str, text: &str) -> String { format!("idl-parse {} {}", kind, hs(text)) }
+
+fn ladders(max: usize, out: &mut dyn Write) {
+    for d in 1..=max {
+        let docs = [
+            format!("typedef {}i32{} T", "list<".repeat(d), ">".repeat(d)),
+            format!("typedef {}i32{} T", "map<string,".repeat(d), ">".repeat(d)),
+            format!("typedef {}i32{} T", "set < ".repeat(d), " > ".repeat(d)),
+            format!("const i32 c = {}1{}", "[".repeat(d), "]".repeat(d)),
+            format!("const i32 c = {}1{}", "{1:".repeat(d), "}".repeat(d)),
+            format!("const i32 c = {}1{}", "{[".repeat(d), "]:2}".repeat(d)),
+            format!("struct S {{ 1: {}i32{} f = {}x{} }}", "list<".repeat(d), ">".repeat(d), "[".repeat(d), "]".repeat(d)),
+            format!("service S {{ {}i32{} f(1: {}i32{} a) }}", "map<i8,".repeat(d), ">".repeat(d), "list<".repeat(d), ">".repeat(d)),
+            // unbalanced: the parser unwinds through every level with an error
+            format!("typedef {}i32 T", "list<".repeat(d)),
+            format!("const i32 c = {}1", "[".repeat(d)),
+        ];
+        for doc in docs { let _ = writeln!(out, "{}", parse_line("file", &doc)); }
+    }
+}
+
+const TOKENS: [&str; 48] = ["struct", "enum", "service", "const", "typedef", "include", "namespace", "union", "exception", "{", "}", "(", ")", "[", "]",
+    "<", ">", ",", ";", ":", "=", ".", "-", "+", "0x", "1", "12345678901234567890", "1.5", "e", "\"", "'", "\\", "//", "/*", "*/", "#", "\n", " ",
+    "required", "optional", "oneway", "throws", "extends", "list", "map", "cpp_type", "true", "é"];
+
+fn char_bounds(s: &str) -> Vec<usize> { let mut v: Vec<usize> = s.char_indices().map(|(i, _)| i).collect(); v.push(s.len()); v }
+
+fn mutate(r: &mut Rng, doc: &str) -> String {
+    let b = char_bounds(doc);
+    if b.len() < 3 { return format!("{}{}", doc, r.pick(&TOKENS)); }
+    let i = b[r.below(b.len() as u64 - 1) as usize];
+    let j = { let k = b.iter().position(|x| *x == i).unwrap(); b[(k + 1 + r.below(6) as usize).min(b.len() - 1)] };
+    match r.below(7) {
+        0 => format!("{}{}", &doc[..i], &doc[j..]),                                   // delete
+        1 => format!("{}{}{}", &doc[..j], &doc[i..j], &doc[j..]),                     // duplicate
+        2 => format!("{}{}{}", &doc[..i], r.pick(&TOKENS), &doc[j..]),                // replace
+        3 => format!("{}{}{}", &doc[..i], r.pick(&TOKENS), &doc[i..]),                // insert
+        4 => {                                                                         // inflate a number to 11-40 digits
+            let bytes = doc.as_bytes();
+            let starts: Vec<usize> = (0..bytes.len()).filter(|&k| bytes[k].is_ascii_digit() && (k == 0 || !bytes[k - 1].is_ascii_digit())).collect();
+            if starts.is_empty() { return format!("{}{}", doc, "9".repeat(20)); }
+            let s = *r.pick(&starts);
+            let mut e = s; while e < bytes.len() && bytes[e].is_ascii_digit() { e += 1; }
+            let n = 11 + r.below(30) as usize;
+            let digits: String = (0..n).map(|_| (b'0' + r.below(10) as u8) as char).collect();
+            format!("{}{}{}", &doc[..s], digits, &doc[e..])
+        }
+        5 => doc[..i].to_string(),                                                     // truncate (unterminated string / comment / block)
+        _ => { let k = 2 + r.below(40) as usize; format!("{}{}{}", &doc[..i], r.pick(&TOKENS).repeat(k), &doc[i..]) }
+    }
+}
+
+fn random_utf8(r: &mut Rng, n: usize) -> String {
+    let mut s = String::new();
+    while s.len() < n {
+        match r.below(10) {
+            0 => s.push(char::from_u32(0x80 + r.below(0x700) as u32).unwrap_or('é')),
+            1 => s.push(char::from_u32(0x800 + r.below(0xD000 - 0x800) as u32).unwrap_or('中')),
+            2 => s.push(char::from_u32(0x10000 + r.below(0x10000) as u32).unwrap_or('𝔸')),
+            3 | 4 => s.push_str(TOKENS[r.below(TOKENS.len() as u64) as usize]),
+            5 => s.push(' '),
+            _ => s.push((0x20 + r.below(0x5f) as u8) as char),
+        }
+    }
+    s
+}
+
+const HAND: [&str; 40] = [
+    "", " ", "// only a comment", "/* c */", "# c\n", "struct", "struct S", "struct S {", "struct S {}", "struct S {},", "enum E {},", "enum E { A = 1, B C }",
+    "struct S { 1: i32 a }", "struct S { 99999999999: i32 a }", "struct S { 2147483647: i32 a }", "struct S { 2147483648: i32 a }",
+    "const i64 c = 9223372036854775807", "const i64 c = 9223372036854775808", "const i64 c = -9223372036854775808", "const i64 c = 0x7fffffffffffffff",
+    "const i64 c = 0x8000000000000000", "const i64 c = 0x", "const i64 c = -0x10", "const i64 c = --5", "const double d = 1e99999999999999999999",
+    "const double d = 1.", "const double d = .5e", "const string s = \"unterminated", "const string s = 'a\\tb'", "const string s = \"\\", "/* unterminated",
+    "include \"a.thrift\" include 'b.thrift'", "namespace py.twisted a.b", "namespace javascript x", "namespace rs a . b (k = 'v') ;",
+    "typedef list < string > ( a = 'b' ) L", "service S extends a.b { oneway void f ( ) throws ( 1 : E e ) }", "service S { onewayx f() }",
+    "const bool b = trueé", "struct S { 1: requiredé x }",
+];
+
+pub fn gen(stream: &str, tier: &str, seed: u64, out: &mut dyn Write) -> bool {
+    let thorough = tier == "thorough";
+    match stream {
+        "C15" => {
+            c15_fixed(out);
+            let n = if thorough { 12000 } else { 450 };
+            let mut g = G { r: Rng(seed ^ 0xC15) };
+            for i in 0..n {
+                let f = g.file(if i % 10 == 0 { 8 } else { 3 });
+                let ls = g.r.next();
+                let _ = writeln!(out, "{}", rt_line(&f, ls, i % 7 == 0));
+            }
+            true
+        }
+        "C16" => {
+            let _ = writeln!(out, "idl-lower");
+            let step = 0x4000u32;
+            let mut lo = 0u32;
+            while lo < 0x110000 { let _ = writeln!(out, "idl-alnum {} {}", lo, lo + step); lo += step; }
+            for h in HAND { for k in ["file", "item"] { let _ = writeln!(out, "{}", parse_line(k, h)); } }
+            for (k, t) in [("int", "0x"), ("int", "-"), ("int", "--0x1f"), ("int", "007"), ("dbl", "1.01e10"), ("dbl", "-+.5E-3x"), ("dbl", "1e"), ("cv", "trueValue"),
+                           ("cv", "true]"), ("cv", "truE"), ("cv", "0x1Fg"), ("cv", "1.e5e"), ("cv", "[1 2;3,]"), ("cv", "{1:2 3:4}"), ("cv", "{1:2,3}"), ("type", "i32x"),
+                           ("type", "i32 (a='b')x"), ("type", "list<i32> cpp_type 'v' r"), ("type", "set cpp_type 'v' <i32>"), ("type", "map<i32;string>"), ("type", "a . b . c d"),
+                           ("type", "a . 1"), ("field", "1:i32 a=1(x='y'),"), ("field", "01: optional optionalx y"), ("fn", "oneway void f()"), ("fn", "onewayx f()"),
+                           ("fn", "void f(1:i32 a)throws(1:E e)(a='b');"), ("ident", "_"), ("ident", "a-b"), ("path", "a. b .c"), ("path", "a."), ("lit", "'it\\'s'"),
+                           ("lit", "\"a\\tb\""), ("lit", "''x"), ("lit", "'\\"), ("anns", "( a = 'b' , c.d = \"e\" ; )"), ("anns", "()"), ("anns", "(a='b'")] {
+                let _ = writeln!(out, "{}", parse_line(k, t));
+            }
+            ladders(if thorough { 128 } else { 64 }, out);
+            // every truncation point of two small documents (unterminated strings, comments, blocks)
+            for doc in ["struct S { 1: required list<string> xs = [\"a\", 'b'] (k = \"v\"), } // c\n/* d */ const i32 c = -0x1F;",
+                        "service S extends b.B { oneway void f(1: i32 a) throws (1: E e) (k='v'); }\nenum E { A = 1 (k='v'), B }"] {
+                for b in char_bounds(doc) { let _ = writeln!(out, "{}", parse_line("file", &doc[..b])); }
+            }
+            let mut g = G { r: Rng(seed ^ 0xC16) };
+            let n = if thorough { 12000 } else { 500 };
+            for i in 0..n {
+                let f = g.file(3);
+                let ls = g.r.next();
+                let (text, _) = render(&f, ls, i % 3 == 0);
+                let mut m = text.clone();
+                for _ in 0..1 + g.r.below(3) { m = mutate(&mut g.r, &m); }
+                let kind = if i % 5 == 0 { KINDS[g.r.below(KINDS.len() as u64) as usize] } else { "file" };
+                let _ = writeln!(out, "{}", parse_line(kind, &m));
+            }
+            // minus ladders: since 4f1981f at most one sign is accepted; longer runs are parse errors
+            for n in [1usize, 2, 3, 64, 65, 500, 2000] { let _ = writeln!(out, "{}", parse_line("file", &format!("const i64 c = {}7", "-".repeat(n)))); }
+            let sizes: &[usize] = if thorough { &[16, 200, 4096, 65536] } else { &[16, 200, 2000] };
+            for &sz in sizes { for _ in 0..(if thorough { 60 } else { 25 }) {
+                let t = random_utf8(&mut g.r, sz);
+                let kind = ["file", "file", "cv", "type", "lit", "ident"][g.r.below(6) as usize];
+                let _ = writeln!(out, "{}", parse_line(kind, &t));
+            } }
+            // large valid documents
+            for (items, cnt) in if thorough { [(60u64, 6), (400, 3)] } else { [(60u64, 2), (0, 0)] } {
+                for _ in 0..cnt { let f = g.file(items); let ls = g.r.next(); let (text, _) = render(&f, ls, false); let _ = writeln!(out, "{}", parse_line("file", &text)); }
+            }
+            true
+        }
+        // C16-stack: run by the extra step of bin/props_idl.py in a child process of its own (a stack overflow kills it):
+        // regression test of DI2 (fixed by 4f1981f): a document without any bracket nesting that carries a long chain of `-` signs
+        "C16-stack" => {
+            let n = if thorough { 100000 } else { 40000 };
+            let _ = writeln!(out, "{}", parse_line("file", &format!("const i64 c = {}7", "-".repeat(n))));
+            true
+        }
+        "IDLUNICODE" => {
+            let mut ranges: Vec<(u32, u32)> = vec![];
+            let mut cur: Option<(u32, u32)> = None;
+            for cp in 128u32..0x110000 {
+                let a = char::from_u32(cp).map(|c| c.is_alphanumeric()).unwrap_or(false);
+                match (a, cur) {
+                    (true, Some((lo, hi))) if hi + 1 == cp => cur = Some((lo, cp)),
+                    (true, _) => { if let Some(r) = cur { ranges.push(r); } cur = Some((cp, cp)); }
+                    _ => {}
+                }
+            }
+            if let Some(r) = cur { ranges.push(r); }
+            let _ = writeln!(out, "/- GENERATED by `rt gen IDLUNICODE quick 0` (harness/rt/src/idl.rs) from the Rust toolchain's");
+            let _ = writeln!(out, "   `char::is_alphanumeric` over all code points >= 128; compared exhaustively with the real function");
+            let _ = writeln!(out, "   on every run of C16 (verb `idl-alnum`).  Do not edit. -/");
+            let _ = writeln!(out, "namespace Pilota.Idl");
+            let _ = writeln!(out, "def alnumRanges : Array (Nat × Nat) := #[");
+            for (i, ch) in ranges.chunks(8).enumerate() {
+                let line: Vec<String> = ch.iter().map(|(a, b)| format!("({},{})", a, b)).collect();
+                let _ = writeln!(out, "  {}{}", line.join(","), if (i + 1) * 8 >= ranges.len() { "" } else { "," });
+            }
+            let _ = writeln!(out, "]");
+            let _ = writeln!(out, "end Pilota.Idl");
+            true
+        }
+        _ => false,
+    }
 }
